@@ -98,6 +98,22 @@ EXTRA_CHECKS["C16"] = (MC,
     "as emitted); issues are re-checked on the native build's output; outside: programs not expressible with the menu "
     "(2 slots quick / 3 thorough)",
     "SSA execution with nondeterministic construct choice; structural assertions on the emitted scripts")
+EXTRA_CHECKS["C09"] = (MC,
+    "as C01 on multi-file programs: the real import/link/clean code is executed symbolically on import graphs (single, "
+    "two files with top-level code, diamond, chain, repeated alias, std + local, equal names, imported globals), every "
+    "imported file once with a hash prefix starting with a letter and once with a digit (sha256 stubbed per class); the "
+    "emitted script under ShSem must equal the reference module composition for all symbolic arguments; illegal uses "
+    "(private, undefined, unknown alias, transitive) must be rejected",
+    trust_sh + "; counterexamples are replayed natively with a comment nonce that gives the real SHA-256 prefix the same class",
+    tech_sh)
+EXTRA_CHECKS["C10"] = (MC,
+    "the real pipeline is executed symbolically with one user identifier (7 roles) spelled by 1..4 (quick) / 1..5 "
+    "(thorough) symbolic bytes; on every accepted path z3 is asked for each spelling under which a name derived from "
+    "the identifier equals another word of the emitted script or a name the shell owns; each spelling found is run "
+    "against a neutral spelling on the real bash; behaviour-changing spellings must be in the known list",
+    "trusted: behaviour can only change through a coincidence of names (capture); list of shell-owned names in c10.go; "
+    "Bash only, Batch case folding not claimed; longer identifiers outside",
+    "SSA symbolic execution with symbolic identifier bytes; z3 enumerates capturing spellings; differential run on bash")
 EXTRA_CHECKS["C06"] = (MC,
     "symbolic execution of the real front-end and both back-ends on a table of typed positions x contexts; the offered "
     "expression is a variable whose declared type is 8 symbolic bytes (constrained to the 8 type spellings) or a call "
